@@ -121,13 +121,64 @@ theorem parseRevision_deleted (r f : Nat) (hr : r < 2 ^ 64) :
 theorem parseRevision_other (b : Bytes) (h8 : b.length ≠ 8) (h9 : b.length ≠ 9) : parseRevision b = none := by
   simp [parseRevision, revisionValueLength, revisionValueLengthWithDeletionFlag, h8, h9]
 
-/-! ### range bounds of the form `K ++ [0]` ("just after K"; `encodeBound` = `backend.encodeRangeBound`,
-/repo 146f0bb): the encoded bounds enclose exactly the records of the raw keys between the raw bounds -/
+/-! ### `Decode` is total (/repo 5ace897): a key too short to be an internal key is an error, not an index out of range -/
+
+/-- `Decode` never indexes out of range: on NO input is the answer of the model `panic`. -/
+theorem decode_never_panics (ik : Bytes) : decode ik ≠ .panic := KB.decode_never_panics ik
+
+/-- Every byte string is either decoded or reported as not an internal key. -/
+theorem decode_total (ik : Bytes) : decode ik = .err ∨ ∃ k r, decode ik = .ok k r := KB.decode_total ik
+
+/-- A key shorter than magic (4) + split byte (1) + revision (8) is reported ... -/
+theorem decode_short_is_error {ik : Bytes} (h : ik.length < 13) : decode ik = .err := KB.decode_short h
+
+/-- ... and whatever decodes is at least that long. -/
+theorem decode_ok_length {ik k : Bytes} {r : Nat} (h : decode ik = .ok k r) : 13 ≤ ik.length :=
+  KB.decode_ok_length h
+
+/-- The repair changed nothing where the old `Decode` gave an answer. -/
+theorem decode_eq_old {ik : Bytes} (h : decodeOld ik ≠ .panic) : decode ik = decodeOld ik := KB.decode_eq_old h
+
+/-- THE DEFECT (before /repo 5ace897), by evaluation: the old `Decode` indexed out of range on the empty key, on
+a 1-byte key (`internalKey[:4]`), on the bare magic (4 bytes) and on magic + 4 bytes (`internalKey[len-9]`), next
+to the repaired answers. (From 9 bytes on the byte at `len-9` of a key with the right magic is a magic byte, not
+the split byte, up to 12 bytes: the old code reported those as errors already.) -/
+theorem old_decode_panics :
+    decodeOld [] = .panic ∧ decodeOld [47] = .panic ∧ decodeOld magic = .panic ∧
+    decodeOld (magic ++ [36, 0, 0, 0]) = .panic ∧
+    decode [] = .err ∧ decode [47] = .err ∧ decode magic = .err ∧
+    decode (magic ++ [36, 0, 0, 0]) = .err ∧
+    decodeOld (magic ++ [36, 0, 0, 0, 0, 0, 0, 0]) = .err ∧
+    decode (magic ++ [36, 0, 0, 0, 0, 0, 0, 0]) = .err ∧
+    decode (magic ++ [36, 0, 0, 0, 0, 0, 0, 0, 7]) = .ok [] 7 := by decide
+
+/-! ### range bounds with bytes at or below the split byte (`encodeBound` = `backend.encodeRangeBound`, /repo
+23c8b93: a bound is cut at its FIRST such byte): for EVERY raw bound — arbitrary bytes — the encoded bounds
+enclose exactly the records of the raw keys between the raw bounds -/
+
+/-- The model's cut byte and loop shape are those of the source as it is now (regenerated): the bound is cut at
+the first byte `<=` the constant, and the constant is the coder's split byte. -/
+theorem bound_cut_as_in_source :
+    rangeBoundShape = "first:<=:keyRevisionSeparator" ∧ rangeBoundSeparator = splitByte ∧ constsUnresolved = [] := by
+  decide
+
+/-- What `encodeRangeBound` computes: a bound over the alphabet is its index key; a bound `P ++ c :: rest` whose
+first byte at or below the separator is `c` is "just after every version of `P`". -/
+theorem encodeBound_cases (b : Bytes) :
+    (Alphabet b ∧ encodeBound b = encode b 0) ∨
+    (∃ P c rest, Alphabet P ∧ c ≤ splitByte ∧ b = P ++ c :: rest ∧ encodeBound b = encode P (2 ^ 64 - 1) ++ [0]) :=
+  bound_cases b
 
 /-- (i) Every version of `K` sorts before the bound "just after K". -/
 theorem versions_before_succ_bound {K : Bytes} {r : Nat} (hK : Alphabet K) (hr : r < 2 ^ 64) :
     blt (encode K r) (encodeBound (K ++ [0])) = true := by
   rw [blt_iff, encode_cmp_succ hK hK hr]; simp
+
+/-- (i') ... and before every bound `K ++ c :: rest` with `c` at or below the separator (`K ++ [1]`, `K ++ "#"`,
+`K ++ "$x"`, the continue key of a continue key `K ++ [0, 0]`, ...). -/
+theorem versions_before_low_bound {K : Bytes} {r c : Nat} (hK : Alphabet K) (hr : r < 2 ^ 64)
+    (hc : c ≤ splitByte) (rest : Bytes) : blt (encode K r) (encodeBound (K ++ c :: rest)) = true := by
+  rw [blt_iff, encodeBound_cut hK hc rest, encode_cmp_after hK hK hr]; simp
 
 /-- (ii) Every record of a key at or after `K ++ [0]` — a proper extension of `K`, or greater — sorts
 after the bound "just after K" (strictly: the bound is no record's key). -/
@@ -144,78 +195,147 @@ theorem le_before_succ_bound {K K' : Bytes} {r : Nat} (hK : Alphabet K) (hK' : A
   rw [ble_iff] at h
   rw [blt_iff, encode_cmp_succ hK' hK hr]; simp [h]
 
-/-- A lower bound (a key over the alphabet or the successor of one) is at or below exactly the records
-of the raw keys at or above it. -/
-theorem bound_lower_iff {a k : Bytes} {r : Nat} (ha : RangeBound a) (hk : Alphabet k) (hr : r < 2 ^ 64) :
-    ble (encodeBound a) (encode k r) = true ↔ ble a k = true := by
-  cases ha with
-  | key ha =>
-    rw [encodeBound_of_alphabet ha, encode_le_iff ha hk (by decide) hr, ble_iff_lt_or_eq, blt_iff]
-    constructor
-    · rintro (h | ⟨h, _⟩)
-      · exact .inl h
-      · exact .inr h
-    · rintro (h | h)
-      · exact .inl h
-      · exact .inr ⟨h, Nat.zero_le _⟩
-  | succ hK =>
-    rename_i K
-    rw [ble_succ_iff, ← not_blt_iff_ble]
-    constructor
-    · intro h
-      cases hc : blt K k
-      · have hle : ble k K = true := not_blt_iff_ble.mp hc
-        rw [le_before_succ_bound hK hk hr hle] at h
-        cases h
-      · rfl
-    · intro h
-      have hgt : ble (K ++ [0]) k = true := (ble_succ_iff k K).mpr h
-      have := succ_bound_before_greater hK hk hr hgt
-      rw [blt_iff] at this
-      simp [blt, cmp_swap (encodeBound (K ++ [0])) (encode k r), this]
-
-/-- An upper bound is above exactly the records of the raw keys below it. -/
-theorem bound_upper_iff {b k : Bytes} {r : Nat} (hb : RangeBound b) (hk : Alphabet k) (hr : r < 2 ^ 64) :
+/-- An upper bound — ANY byte string — is above exactly the records of the raw keys below it. -/
+theorem bound_upper_iff {b k : Bytes} {r : Nat} (hk : Alphabet k) (hr : r < 2 ^ 64) :
     blt (encode k r) (encodeBound b) = true ↔ blt k b = true := by
-  cases hb with
-  | key hb =>
-    rw [encodeBound_of_alphabet hb, encode_lt_iff hk hb hr (by decide)]
-    constructor
-    · rintro (h | ⟨_, h⟩)
-      · exact h
-      · omega
-    · exact .inl
-  | succ hK =>
-    rename_i K
-    rw [blt_succ_iff, blt_iff, encode_cmp_succ hk hK hr, ble_iff]
-    cases cmp k K <;> simp
+  rw [blt_iff, blt_iff]; exact encode_lt_bound_iff hk hr b
 
-/-- The bounds computed for a raw range `[a, b)` whose ends are keys or successors of keys enclose exactly
-the records of the raw keys in it: `[encodeBound (K ++ [0]), encodeBound hi)` holds the records of the
-keys `k'` with `K ++ [0] ≤ k' < hi` (not `K`), `[encodeBound lo, encodeBound (K ++ [0]))` those with
-`lo ≤ k' < K ++ [0]`, i.e. `lo ≤ k' ≤ K` (`K` included). Generalises `range_bounds_exact`. -/
-theorem range_bounds_exact' {a b k : Bytes} {r : Nat} (ha : RangeBound a) (hb : RangeBound b)
-    (hk : Alphabet k) (hr : r < 2 ^ 64) :
+/-- A lower bound — ANY byte string — is at or below exactly the records of the raw keys at or above it. -/
+theorem bound_lower_iff {a k : Bytes} {r : Nat} (hk : Alphabet k) (hr : r < 2 ^ 64) :
+    ble (encodeBound a) (encode k r) = true ↔ ble a k = true := by
+  rw [← not_blt_iff_ble, ← not_blt_iff_ble]
+  have := @bound_upper_iff a k r hk hr
+  cases h1 : blt (encode k r) (encodeBound a) <;> cases h2 : blt k a <;> simp_all
+
+/-- The bounds computed for a raw range `[a, b)` — `a`, `b` ARBITRARY byte strings — enclose exactly the records
+of the raw keys in it. In particular `[encodeBound (K ++ [0]), encodeBound hi)` holds the records of the keys
+`k'` with `K ++ [0] ≤ k' < hi` (not `K`), `[encodeBound lo, encodeBound (K ++ [1]))` those with
+`lo ≤ k' < K ++ [1]`, i.e. `lo ≤ k' ≤ K` (`K` included). Generalises `range_bounds_exact`. -/
+theorem range_bounds_exact' {a b k : Bytes} {r : Nat} (hk : Alphabet k) (hr : r < 2 ^ 64) :
     (ble (encodeBound a) (encode k r) = true ∧ blt (encode k r) (encodeBound b) = true) ↔
       (ble a k = true ∧ blt k b = true) := by
-  rw [bound_lower_iff ha hk hr, bound_upper_iff hb hk hr]
+  rw [bound_lower_iff hk hr, bound_upper_iff hk hr]
 
 /-- `lo ≤ k' < K ++ [0]` is `lo ≤ k' ≤ K`, and `K ++ [0] ≤ k'` is `K < k'` (any byte strings). -/
 theorem succ_is_successor (k K : Bytes) :
     (blt k (K ++ [0]) = true ↔ ble k K = true) ∧ (ble (K ++ [0]) k = true ↔ blt K k = true) :=
   ⟨blt_succ_iff k K, ble_succ_iff k K⟩
 
-/-- Encoded bounds are ordered like the raw bounds (so a proper raw interval is scanned ascending). -/
-theorem bounds_ordered {a b : Bytes} (ha : RangeBound a) (hb : RangeBound b) (hab : cmp a b = .lt) :
-    cmp (encodeBound a) (encodeBound b) = .lt := encodeBound_lt ha hb hab
+/-- Among keys over the alphabet EVERY bound `P ++ c :: rest` with `c` at or below the separator is "just after
+`P`": `k < P ++ c :: rest` iff `k ≤ P`. -/
+theorem low_bound_is_after (k P : Bytes) (hk : Alphabet k) {c : Nat} (hc : c ≤ splitByte) (rest : Bytes) :
+    blt k (P ++ c :: rest) = true ↔ ble k P = true := by
+  rw [blt_iff, ble_iff]; exact cmp_cut_lt_iff hk P hc rest
+
+/-- Encoded bounds are ordered like the raw bounds, WEAKLY, for arbitrary byte strings (a proper raw interval is
+scanned ascending or not at all) ... -/
+theorem bounds_ordered {a b : Bytes} (hab : cmp a b = .lt) : cmp (encodeBound a) (encodeBound b) ≠ .gt :=
+  encodeBound_mono hab
+
+/-- ... the strongest form: strictly, unless both bounds have a low byte behind the same key `P` — then they are
+encoded alike. -/
+theorem bounds_ordered_strong {a b : Bytes} (hab : cmp a b = .lt) :
+    cmp (encodeBound a) (encodeBound b) = .lt ∨
+      (encodeBound a = encodeBound b ∧ ∃ P, cutLow a = some P ∧ cutLow b = some P) :=
+  encodeBound_lt_or_eq hab
+
+/-- ... strictly as soon as one of the two bounds is over the alphabet (the statement before 23c8b93, for more
+bounds). -/
+theorem bounds_ordered_strict {a b : Bytes} (h : Alphabet a ∨ Alphabet b) (hab : cmp a b = .lt) :
+    cmp (encodeBound a) (encodeBound b) = .lt := encodeBound_lt h hab
+
+/-- Two raw bounds are encoded alike iff they are equal or both are cut behind the same key. -/
+theorem encodeBound_eq_iff (a b : Bytes) :
+    encodeBound a = encodeBound b ↔ (a = b ∨ ∃ P, cutLow a = some P ∧ cutLow b = some P) :=
+  KB.encodeBound_eq_iff a b
+
+/-- Bounds encoded alike have NO key over the alphabet between them: nothing is lost by scanning the empty
+interval. -/
+theorem encodeBound_eq_no_key_between {a b : Bytes} (h : encodeBound a = encodeBound b) (k : Bytes)
+    (hk : Alphabet k) : ¬ (ble a k = true ∧ blt k b = true) := by
+  rw [← @range_bounds_exact' a b k 0 hk (by decide), h]
+  rintro ⟨h1, h2⟩
+  rw [← not_blt_iff_ble] at h1
+  rw [h1] at h2; cases h2
+
+/-- For raw bounds `a < b` where `b` has a low byte (is not itself a possible key): encoded alike IFF no key over
+the alphabet lies in `[a, b)`. (For `b` over the alphabet the encodings always differ, even when no key lies
+between — `no_key_between_but_different`: the scanned interval is then non-empty but holds no record.) -/
+theorem encodeBound_eq_iff_no_key_between {a b : Bytes} (hab : cmp a b = .lt) (hb : ¬ Alphabet b) :
+    encodeBound a = encodeBound b ↔ ∀ k, Alphabet k → ¬ (ble a k = true ∧ blt k b = true) := by
+  constructor
+  · exact encodeBound_eq_no_key_between
+  · intro hno
+    cases hcb : cutLow b with
+    | none => exact absurd (cutLow_none_iff.mp hcb) hb
+    | some Q =>
+      obtain ⟨hQ, c, rest, eb, hc⟩ := cutLow_some hcb
+      cases hca : cutLow a with
+      | none =>
+        -- `a` itself is a key in [a, b)
+        exact absurd ⟨by simp [ble], blt_iff.mpr hab⟩ (hno a (cutLow_none_iff.mp hca))
+      | some P =>
+        rcases encodeBound_lt_or_eq hab with hlt | ⟨he, _⟩
+        · -- the keys differ: the key of `b` lies in [a, b)
+          exfalso
+          obtain ⟨hP, c', rest', ea, hc'⟩ := cutLow_some hca
+          have hPQ : cmp P Q = .lt := by
+            rw [encodeBound_cmp] at hlt
+            simp only [boundKey, hca, hcb, Option.getD_some, Option.isSome_some] at hlt
+            by_cases e : P = Q
+            · simp [e] at hlt
+            · simpa [e] using hlt
+          refine hno Q hQ ⟨?_, ?_⟩
+          · rw [← not_blt_iff_ble, ea]
+            have := (low_bound_is_after Q P hQ hc' rest')
+            cases h1 : blt Q (P ++ c' :: rest')
+            · rfl
+            · have h2 := this.mp h1
+              rw [ble_iff, cmp_swap P Q, hPQ] at h2
+              exact absurd rfl h2
+          · rw [eb]; exact (low_bound_is_after Q Q hQ hc rest).mpr (by simp [ble])
+        · exact he
+
+/-- ... the excluded case on a concrete pair: no key over the alphabet lies in `["a\0", "a%")` (the byte after
+"a" would have to be below '%' = 0x25, i.e. not in the alphabet), yet the encodings differ. -/
+theorem no_key_between_but_different :
+    (∀ k, Alphabet k → ¬ (ble [97, 0] k = true ∧ blt k [97, 37] = true)) ∧
+    cmp (encodeBound [97, 0]) (encodeBound [97, 37]) = .lt := by
+  refine ⟨?_, by decide⟩
+  intro k hk
+  rintro ⟨h1, h2⟩
+  match k, hk with
+  | [], _ => simp [ble] at h1
+  | x :: t, hk =>
+    rw [ble_iff, cmp_cons_cons] at h1
+    rw [blt_iff, cmp_cons_cons] at h2
+    by_cases hx1 : 97 < x
+    · have : ¬ x < 97 := by omega
+      simp [hx1, this] at h2
+    · by_cases hx2 : x < 97
+      · simp [hx1, hx2] at h1
+      · simp only [hx1, hx2, if_false] at h1 h2
+        match t, hk with
+        | [], _ => simp at h1
+        | y :: u, hk =>
+          have hy : splitByte < y := hk y (by simp)
+          unfold splitByte at hy
+          rw [cmp_cons_cons] at h2
+          have h3 : ¬ y < 37 := by omega
+          by_cases h4 : 37 < y
+          · simp [h3, h4] at h2
+          · have : y = 37 := by omega
+            subst this
+            cases u <;> simp at h2
 
 /-- THE DEFECT (before /repo 146f0bb): the plain encoding of the bound `K ++ [0]` sorts before every
 version of `K` — for every key and revision: a range starting there includes `K` again, a range ending
 there misses `K`. -/
 theorem old_bound_encoding_defect (K : Bytes) (r : Nat) :
-    blt (encode (K ++ [0]) 0) (encode K r) = true := by
+    blt (encodeBoundOldest (K ++ [0])) (encode K r) = true := by
   have e1 : encode (K ++ [0]) 0 = (magic ++ K) ++ (0 :: splitByte :: be64 0) := by simp [encode]
   have e2 : encode K r = (magic ++ K) ++ (splitByte :: be64 r) := by simp [encode]
+  unfold encodeBoundOldest
   rw [blt_iff, e1, e2, cmp_append_left, cmp_cons_cons]
   simp [splitByte]
 
@@ -226,11 +346,60 @@ theorem old_bound_encoding_witness :
     blt (encode [47, 97] (2 ^ 64 - 1)) (encodeBound ([47, 97] ++ [0])) = true ∧
     blt (encodeBound ([47, 97] ++ [0])) (encode [47, 97, 47, 98] 0) = true := by decide
 
-/-! Non-vacuity: concrete keys over the alphabet, prefixes of one another, with extreme revisions. -/
+/-- THE DEFECT OF THE 146f0bb VERSION (`encodeBoundOld`: only ONE trailing zero byte was recognised): for every
+key `K`, every revision, every low byte `c` that is not a lone trailing zero, the old encoding of the bound
+`K ++ c :: rest` sorts at or BEFORE the records of `K` — a range ending there misses `K`, a range starting there
+includes it. -/
+theorem bound_146f0bb_defect (K : Bytes) (r c : Nat) (hc : c < splitByte) (rest : Bytes)
+    (hrest : (c :: rest).getLast? ≠ some 0) : blt (encodeBoundOld (K ++ c :: rest)) (encode K r) = true := by
+  have hl : (K ++ c :: rest).getLast? ≠ some 0 := by
+    rw [List.getLast?_append]; simpa [List.getLast?_cons_cons] using hrest
+  have e1 : encode (K ++ c :: rest) 0 = (magic ++ K) ++ (c :: (rest ++ splitByte :: be64 0)) := by simp [encode]
+  have e2 : encode K r = (magic ++ K) ++ (splitByte :: be64 r) := by simp [encode]
+  unfold encodeBoundOld
+  rw [if_neg hl, blt_iff, e1, e2, cmp_append_left, cmp_cons_cons]
+  simp [hc]
+
+/-- ... on the concrete key "/a" at revision 5, by evaluation, for the bounds `K ++ [1]`, `K ++ [0, 0]` (the
+continue key of a continue key) and `K ++ [35]` (`"/a#"`): the 146f0bb version puts each of them BEFORE the record
+of "/a" (so `[K, K ++ [1])` was empty and a range from `K ++ [1]` answered `K`), the repaired `encodeBound` AFTER
+every version of "/a" and before the records of "/a/b"; on `K ++ [0]` the two versions agree. -/
+theorem bound_146f0bb_witness :
+    blt (encodeBoundOld ([47, 97] ++ [1])) (encode [47, 97] 5) = true ∧
+    blt (encodeBoundOld ([47, 97] ++ [0, 0])) (encode [47, 97] 5) = true ∧
+    blt (encodeBoundOld ([47, 97] ++ [35])) (encode [47, 97] 5) = true ∧
+    blt (encode [47, 97] (2 ^ 64 - 1)) (encodeBound ([47, 97] ++ [1])) = true ∧
+    blt (encode [47, 97] (2 ^ 64 - 1)) (encodeBound ([47, 97] ++ [0, 0])) = true ∧
+    blt (encode [47, 97] (2 ^ 64 - 1)) (encodeBound ([47, 97] ++ [35])) = true ∧
+    blt (encodeBound ([47, 97] ++ [1])) (encode [47, 97, 47, 98] 0) = true ∧
+    blt (encodeBound ([47, 97] ++ [0, 0])) (encode [47, 97, 47, 98] 0) = true ∧
+    blt (encodeBound ([47, 97] ++ [35])) (encode [47, 97, 47, 98] 0) = true ∧
+    encodeBound ([47, 97] ++ [0]) = encodeBoundOld ([47, 97] ++ [0]) ∧
+    encodeBound ([47, 97] ++ [1]) = encodeBound ([47, 97] ++ [2]) := by decide
+
+/-- The repair changed nothing for the bounds the 146f0bb version handled: keys over the alphabet and their
+immediate successors. -/
+theorem encodeBound_eq_old {b : Bytes} (h : Alphabet b ∨ ∃ K, Alphabet K ∧ b = K ++ [0]) :
+    encodeBound b = encodeBoundOld b := by
+  rcases h with h | ⟨K, hK, rfl⟩
+  · rw [encodeBound_of_alphabet h]
+    have : ¬ b.getLast? = some 0 := by
+      intro h0
+      have := h 0 (List.mem_of_getLast? h0)
+      omega
+    simp [encodeBoundOld, this]
+  · rw [encodeBound_succ hK]; simp [encodeBoundOld]
+
+/-! Non-vacuity: concrete keys over the alphabet, prefixes of one another, with extreme revisions; concrete
+bounds with low bytes. -/
 example : Alphabet [47, 97] ∧ Alphabet [47, 97, 47, 98] ∧ (2 ^ 64 - 1 < 2 ^ 64) := by decide
 example : blt (encode [47, 97] (2 ^ 64 - 1)) (encode [47, 97, 47, 98] 0) = true := by decide
 example : decode (encode [] 0) = .ok [] 0 := by decide
-example : RangeBound [47, 97] ∧ RangeBound ([47, 97] ++ [0]) ∧ ble ([47, 97] ++ [0]) [47, 97, 47, 98] = true :=
-  ⟨.key (by decide), .succ (by decide), by decide⟩
+example : Alphabet [47, 97] ∧ ble ([47, 97] ++ [0]) [47, 97, 47, 98] = true := ⟨by decide, by decide⟩
+example : cmp ([47, 97] ++ [1]) ([47, 97] ++ [2]) = .lt ∧ ¬ Alphabet ([47, 97] ++ [2]) ∧
+    encodeBound ([47, 97] ++ [1]) = encodeBound ([47, 97] ++ [2]) := by decide
+example : (1 : Nat) < splitByte ∧ ([1] : Bytes).getLast? ≠ some 0 ∧ ([0, 0] : Bytes).getLast? = some 0 := by decide
+example : decodeOld (encode [47] 3) ≠ .panic := by decide
+example : ([47] : Bytes).length < 13 := by decide
 
 end KB.C10
